@@ -89,13 +89,12 @@ func LengthEncodedString(data []byte) ([]byte, int, error) {
 		return nil, n, err
 	}
 
-	n += int(num)
-
-	// Check data length
-	if len(data) >= n {
-		return data[n-int(num) : n], n, nil
+	// Check data length (the declared length is any 64-bit value)
+	if num > uint64(len(data)-n) {
+		return nil, n, io.EOF
 	}
-	return nil, n, io.EOF
+	n += int(num)
+	return data[n-int(num) : n], n, nil
 }
 
 // SkipLengthEncodedString https://dev.mysql.com/doc/internals/en/string.html#packet-Protocol::LengthEncodedString
@@ -108,12 +107,11 @@ func SkipLengthEncodedString(data []byte) (int, error) {
 		return n, nil
 	}
 
-	n += int(num)
-
-	if len(data) >= n {
-		return n, nil
+	// the declared length is any 64-bit value
+	if num > uint64(len(data)-n) {
+		return n, io.EOF
 	}
-	return n, io.EOF
+	return n + int(num), nil
 }
 
 // PutLengthEncodedInt https://dev.mysql.com/doc/internals/en/integer.html#packet-Protocol::LengthEncodedInteger
